@@ -645,11 +645,15 @@ func replay(c *vf.Ctx) {
 		_ = config.SetHaPolicy(config.RepPolicy)
 	}
 	c.Eval(1)
-	o := exec(w.Plan, stats{})
-	if o.sig != "" {
-		fmt.Printf("REPLAY still violates: %s\n  %s\n", o.sig, o.what)
-		c.Violation(o.sig, o.what, w)
-		return
+	// divergences that come from map iteration order do not show on every execution
+	var o *outcome
+	for try := 0; try < 10; try++ {
+		o = exec(w.Plan, stats{})
+		if o.sig != "" {
+			fmt.Printf("REPLAY still violates (execution %d): %s\n  %s\n", try+1, o.sig, o.what)
+			c.Violation(o.sig, o.what, w)
+			return
+		}
 	}
 	if w.Kind == "rerun" && o.panicked == "" {
 		for r := 0; r < 8; r++ {
